@@ -91,6 +91,15 @@ func execC02Bubble(r *kernel.Run, s C02Spec) {
 	pool := map[string]gabi.Proof{}
 	for i, cs := range s.Sessions {
 		ctx, nonce := randBits(w.hr, 160+w.hr.IntN(90)), randBits(w.hr, 60+w.hr.IntN(60))
+		// swarm: small contexts and nonces (context 1 is the IRMA default; 0 and 1 are one-bit neighbours)
+		switch w.hr.IntN(6) {
+		case 0:
+			ctx = big.NewInt(int64(w.hr.IntN(3)))
+		case 1:
+			nonce = big.NewInt(int64(w.hr.IntN(3)))
+		case 2:
+			ctx, nonce = big.NewInt(int64(w.hr.IntN(2))), big.NewInt(int64(w.hr.IntN(2)))
+		}
 		bs := w.BuildSession(keys, []*big.Int{secret}, cs.Builders, ctx, nonce, cs.IsSig)
 		live = append(live, bs)
 		tree := kernel.MustDecode(bs.Wire).([]any)
@@ -177,9 +186,14 @@ func execC02Bubble(r *kernel.Run, s C02Spec) {
 				return nonce
 			}
 			base(wh+"+1", wh, func(c, n **big.Int, _ *bool, _ *[]*gabikeys.PublicKey, _ *[]string) { p := sel(c, n); *p = new(big.Int).Add(*p, one) })
-			base(wh+"-1", wh, func(c, n **big.Int, _ *bool, _ *[]*gabikeys.PublicKey, _ *[]string) { p := sel(c, n); *p = new(big.Int).Sub(*p, one) })
+			if (*sel(&o.Sess.Context, &o.Sess.Nonce)).Sign() > 0 {
+				base(wh+"-1", wh, func(c, n **big.Int, _ *bool, _ *[]*gabikeys.PublicKey, _ *[]string) { p := sel(c, n); *p = new(big.Int).Sub(*p, one) })
+			}
 			base(wh+"=0", wh, func(c, n **big.Int, _ *bool, _ *[]*gabikeys.PublicKey, _ *[]string) { p := sel(c, n); *p = big.NewInt(0) })
 			for _, bit := range []int{0, 7, 8, (*sel(&o.Sess.Context, &o.Sess.Nonce)).BitLen() - 1, (*sel(&o.Sess.Context, &o.Sess.Nonce)).BitLen() + 8} {
+				if bit < 0 {
+					continue
+				}
 				b := bit
 				base(fmt.Sprintf("%s^bit%d", wh, b), wh, func(c, n **big.Int, _ *bool, _ *[]*gabikeys.PublicKey, _ *[]string) {
 					p := sel(c, n)
